@@ -80,6 +80,7 @@ def generate(rng, tier):
     out += sc.gen_hookraise(rng, 80 * n)
     out += sc.gen_manual(rng, 60 * n)
     out += sc.gen_enter_effects(rng, 60 * n)
+    out += sc.gen_hook_effects(rng, 40 * n)
     sc.add_falsy(rng, out)
     return out
 
